@@ -40,40 +40,8 @@ struct Execution
   }
 };
 
-struct ChooserState
-{
-  const std::vector<int>* prefix = nullptr;
-  Execution* exec = nullptr;
-  bool diverged = false;
-};
-
-inline int chooser_cb(void* user, const vomp_point* p, const int* /*enabled*/)
-{
-  ChooserState* s = static_cast<ChooserState*>(user);
-  const size_t pos = s->exec->points.size();
-  int c = 0;
-  if (pos < s->prefix->size())
-    {
-      c = (*s->prefix)[pos];
-      if (c >= p->n_enabled)
-        {
-          s->diverged = true;
-          c = 0;
-        }
-    }
-  if (c != 0 && p->running_enabled)
-    s->exec->preemptions++;
-  s->exec->points.push_back(Point{ p->tid, p->kind, p->n_enabled, p->running_enabled, c, p->site });
-  return c;
-}
-
-// the chooser state of the execution in progress (so that a body can suspend exploration during a set-up phase)
-inline ChooserState*& active_state() { static ChooserState* s = nullptr; return s; }
-inline void suspend(bool on)
-{
-  if (on) vomp_set_chooser(nullptr, nullptr);
-  else if (active_state()) vomp_set_chooser(chooser_cb, active_state());
-}
+// a body can suspend exploration during a set-up phase (choice points are then neither replayed nor logged)
+inline void suspend(bool on) { vomp_replay_pause(on ? 1 : 0); }
 
 struct Result
 {
@@ -101,15 +69,18 @@ struct Explorer
   {
     Execution x;
     if (before_run) before_run(prefix);
-    ChooserState st;
-    st.prefix = &prefix;
-    st.exec = &x;
-    vomp_set_chooser(chooser_cb, &st);
-    active_state() = &st;
+    // the replay chooser and the log of choice points live inside vomp (uninstrumented, see vomp.h)
+    vomp_replay_begin(prefix.data(), (int)prefix.size());
     body(x);
-    active_state() = nullptr;
-    vomp_set_chooser(nullptr, nullptr);
-    if (st.diverged || x.points.size() < prefix.size())
+    const vomp_logged_point* log = nullptr;
+    int diverged = 0;
+    const int n = vomp_replay_end(&log, &diverged);
+    for (int i = 0; i < n; ++i)
+      {
+        if (log[i].chosen != 0 && log[i].running_enabled) x.preemptions++;
+        x.points.push_back(Point{ log[i].tid, log[i].kind, log[i].n_enabled, log[i].running_enabled, log[i].chosen, log[i].site });
+      }
+    if (diverged || x.points.size() < prefix.size())
       {
         x.err_key = "nondeterminism";
         x.err_msg = "schedule prefix could not be replayed (a choice was out of range or the execution ended early): the body is not deterministic under the scheduler";
